@@ -623,6 +623,93 @@ def views_and_explicit_validation(ctx):
     ctx.count("views of living arrays / explicit validations", n)
 
 
+def results_belong_to_the_caller(ctx):
+    """"Results are new objects": what arithmetic hands back - `0 + a` and `sum([a])` (how a column of arrays is totalled),
+    an operation with the neutral number, with another array - is the caller's to work on. The caller overwrites the
+    container of every result; the operands (and the containers *they* were built from) hold what they held. For every
+    class x container kind (masked and integer numpy containers too); a result that is the operand itself is reported as such."""
+    import numpy as np
+    from barril.units import Array, FixedArray
+
+    kinds = (("list", list), ("tuple", tuple), ("nd", lambda z: np.array(z, dtype=float)), ("ndint", lambda z: np.array(z, dtype=np.int64)), ("masked", lambda z: np.ma.masked_array(np.array(z, dtype=float), mask=[False, True, False])))
+    ops = (
+        ("0 + a", lambda a, b: 0 + a), ("a + 0", lambda a, b: a + 0), ("0.0 + a", lambda a, b: 0.0 + a), ("sum([a])", lambda a, b: sum([a])), ("sum([a, b])", lambda a, b: sum([a, b])), ("a * 1", lambda a, b: a * 1), ("1 * a", lambda a, b: 1 * a),
+        ("a / 1", lambda a, b: a / 1), ("a - 0", lambda a, b: a - 0), ("a * 1.0", lambda a, b: a * 1.0), ("a + b", lambda a, b: a + b), ("a - b", lambda a, b: a - b), ("a * b", lambda a, b: a * b), ("a / b", lambda a, b: a / b),
+        ("a + b in another unit", lambda a, b: a + b.CreateCopy(unit="cm")), ("a.CreateCopy(unit='cm') + a", lambda a, b: a.CreateCopy(unit="cm") + a), ("0 + (0 + a)", lambda a, b: 0 + (0 + a)),
+    )  # fmt: skip
+    n = 0
+    for cls_name, mk_obj in (("Array", lambda c: Array("length", c, "m")), ("FixedArray", lambda c: FixedArray(3, "length", c, "m")), ("Array, derived", lambda c: Array(c, "m") * Array([1.0, 1.0, 1.0], "s"))):
+        for kind, mk in kinds:
+            for oname, op in ops:
+                ca, cb = mk([1.0, 2.0, 4.0]), mk([8.0, 16.0, 32.0])
+                try:
+                    a, b = mk_obj(ca), mk_obj(cb)
+                except Exception:
+                    ctx.count("results: operands that could not be built")
+                    continue
+                before = (snapshot.value_object(a), snapshot.value_object(b), snapshot.container(ca), snapshot.container(cb))
+                ctx.ev()
+                ctx.nt(("results belong to the caller", cls_name, kind, oname))
+                case = {"class": cls_name, "container": kind, "expression": oname}
+                try:
+                    res = op(a, b)
+                except Exception as e:
+                    ctx.count("results: expression refused (%s)" % type(e).__name__)
+                    continue
+                n += 1
+                if res is a or res is b:
+                    ctx.violation("result-is-the-operand-itself:%s" % oname, dict(case, result=repr(res)[:120]), replay={"results_belong": True})
+                v = res.GetValues() if hasattr(res, "GetValues") else None
+                try:
+                    if isinstance(v, list):
+                        v[:] = [-12345.0] * len(v)
+                    elif isinstance(v, np.ndarray) and v.ndim:
+                        v[...] = -12345
+                        if isinstance(v, np.ma.MaskedArray):
+                            v.mask = True
+                except Exception:
+                    ctx.count("results: container could not be overwritten")
+                after = (snapshot.value_object(a), snapshot.value_object(b), snapshot.container(ca), snapshot.container(cb))
+                if after != before:
+                    ctx.violation("operand-changed-by:the-caller-overwriting-a-result:%s" % oname, dict(case, before=repr(before)[:300], after=repr(after)[:300]), replay={"results_belong": True})
+    ctx.count("results overwritten by the caller", n)
+
+
+def masked_conversions(ctx, db):
+    """A masked numpy array (null sentinels under the mask) as the container of an Array, and handed to the conversion
+    entry points directly: re-expressed in another unit - float64, float32 and integer data, masks of every shape - the
+    operand's data *and* mask, and the caller's own array, hold what they held, also after the caller overwrites the result."""
+    import numpy as np
+    from barril.units import Array, ObtainQuantity
+
+    n = 0
+    q = ObtainQuantity("m", "length")
+    for dt in (np.float64, np.float32, np.int64):
+        for mask in ([False, True, False, False], [False] * 4, [True] * 4, np.ma.nomask):
+            for how, fn in (
+                ("Array.GetValues(unit)", lambda m: Array("length", m, "m").GetValues("cm")), ("Array.CreateCopy(unit)", lambda m: Array("length", m, "m").CreateCopy(unit="km")), ("UnitDatabase.Convert", lambda m: db.Convert("length", "m", "ft", m)),
+                ("Quantity.Convert", lambda m: q.Convert(m, "cm")), ("Array * number -> GetValues(unit)", lambda m: (Array("length", m, "m") * 2).GetValues("mm")), ("Array + Array in another unit", lambda m: Array("length", m, "m") + Array("length", [1.0, 1.0, 1.0, 1.0], "cm")),
+                ("Array in another unit + Array", lambda m: Array("length", [1.0, 1.0, 1.0, 1.0], "cm") + Array("length", m, "m")), ("UnitDatabase.Convert(exps)", lambda m: db.Convert("length", [("m", 1)], [("cm", 1)], m)),
+            ):  # fmt: skip
+                data = np.array([1.0, -999.25 if dt is not np.int64 else -999, 4.0, 8.0], dtype=dt)
+                m = np.ma.masked_array(data, mask=mask)
+                before = (m.data.tobytes(), np.ma.getmaskarray(m).tobytes(), data.tobytes(), m.dtype.str)
+                ctx.ev()
+                ctx.nt(("masked conversion", dt.__name__, repr(mask)[:20], how))
+                n += 1
+                try:
+                    res = fn(m)
+                    v = res.GetValues() if hasattr(res, "GetValues") else res
+                    if isinstance(v, np.ndarray) and v.ndim and v is not m:
+                        v[...] = 12345
+                except Exception as e:
+                    ctx.count("masked conversions refused (%s)" % type(e).__name__)
+                after = (m.data.tobytes(), np.ma.getmaskarray(m).tobytes(), data.tobytes(), m.dtype.str)
+                if after != before:
+                    ctx.violation("operand-changed-by:%s:masked-array" % how, {"dtype": dt.__name__, "mask": repr(mask), "held": [1.0, -999.25, 4.0, 8.0], "holds": repr(m)[:200], "callers_array": data.tolist()}, replay={"masked_conversions": True})
+    ctx.count("masked-array conversions", n)
+
+
 def identity_unit_pairs(ctx, db):
     """Two symbols of one quantity type that stand for the same size ('Euc' and '-', 'm3/m3' and its namesakes): re-expressing
     one in the other is the identity - which is exactly where a 'converted temporary' may turn out to be the operand's own
@@ -772,7 +859,7 @@ def run(ctx):
     )
     ctx.assumptions = [
         "explicit setters (SetNumber, SetFraction, set_numerator, Curve.SetImage, ...) and class-level configuration are not operations on operands",
-        "aliasing between a result and an operand is not flagged (objects are immutable by contract; Copy(), x**1 may return self)",
+        "aliasing between a result and an operand is flagged for the binary operators + - * / (0 + a, sum([a]), a * 1, ...: the caller overwrites every such result) and not for Copy() and x**1, which may return self (objects are immutable by contract)",
         "no NaN in the history pools (NaN breaks == by definition); NaN elements are covered by the validation workload, which compares bytes",
     ]
     mon = OperandMonitor()
@@ -797,6 +884,10 @@ def run(ctx):
             zero_divisors(ctx)
             identity_unit_pairs(ctx, db)
             views_and_explicit_validation(ctx)
+    if ctx.shard == 1 % ctx.nshards:
+        with table.pushed(db):
+            results_belong_to_the_caller(ctx)
+            masked_conversions(ctx, db)
     ctx.notes["operand_monitor"] = {"boundary_calls_observed": mon.n_calls, "operand_snapshots_compared": mon.n_snapshots}
     ctx.inconclusive_if(mon.n_snapshots < 1000, "operand monitor compared fewer than 1000 snapshots")
     ctx.inconclusive_if(probe.BOUNDARY["Scalar.__reduce__"] == 0 and probe.COUNTS["Scalar.__reduce__"] == 0, "pickle path never reached")
@@ -814,5 +905,9 @@ def replay(ctx, d):
     with table.pushed(db):
         if d and d.get("zero_divisors"):
             zero_divisors(ctx)
+        elif d and d.get("results_belong"):
+            results_belong_to_the_caller(ctx)
+        elif d and d.get("masked_conversions"):
+            masked_conversions(ctx, db)
         else:
             one_history(ctx, int(d["history"]) if d else 0, 250, mon)
